@@ -113,6 +113,11 @@ fn fb(fill: u64, tag: u64, n: usize) -> Vec<u8> {
     Rng::new(fill, tag, 7).bytes(n)
 }
 
+/// GetAssertion flavour: length of the hmac-secret output (low 7 bits of `ext_val`, at most 80).
+fn hmac_len(x: &AuthDataSpec) -> usize {
+    ((x.ext_val & 0x7f) as usize).min(80)
+}
+
 /// The expected extension map per the supplied members (host side).
 fn expected_ext(x: &AuthDataSpec) -> Vec<(V, V)> {
     let mut m = Vec::new();
@@ -131,7 +136,7 @@ fn expected_ext(x: &AuthDataSpec) -> Vec<(V, V)> {
         }
     } else {
         if x.ext_mask & 1 != 0 {
-            m.push((t("hmac-secret"), V::B(fb(x.fill, 5, (x.ext_val % 81) as usize))));
+            m.push((t("hmac-secret"), V::B(fb(x.fill, 5, hmac_len(x)))));
         }
         if cfg!(feature = "third-party-payment") && x.ext_mask & 2 != 0 {
             m.push((t("thirdPartyPayment"), V::Bool(x.ext_val & 0x400 != 0)));
@@ -215,7 +220,7 @@ fn call_real(x: &AuthDataSpec) -> Result<Vec<u8>, u8> {
         let ext = if x.ext {
             let mut e = ExtensionsOutput::default();
             if x.ext_mask & 1 != 0 {
-                e.hmac_secret = Some(ctap_types::Bytes::from_slice(&fb(x.fill, 5, (x.ext_val % 81) as usize)).unwrap());
+                e.hmac_secret = Some(ctap_types::Bytes::from_slice(&fb(x.fill, 5, hmac_len(x))).unwrap());
             }
             #[cfg(feature = "third-party-payment")]
             if x.ext_mask & 2 != 0 {
@@ -411,7 +416,7 @@ pub fn gen(seed: u64, run: u64, tier: &str) -> Vec<Step> {
                 id_len: 0,
                 key_len: 0,
                 ext: k % 9 != 0,
-                ext_mask: (k / 16 % 16) as u8,
+                ext_mask: (k / 3 % 16) as u8,
                 ext_val: (k as u32 % 81) | ((rng.next() as u32) & 0x700),
                 fill: rng.next(),
             }));
